@@ -7,6 +7,7 @@ package vsched
 
 import (
 	"fmt"
+	"os"
 	"runtime"
 	"runtime/debug"
 	"strings"
@@ -62,6 +63,7 @@ type Result struct {
 	Panic      string // non-empty: a thread panicked (value + stack)
 	Deadlock   bool   // main thread never finished
 	StepLimit  bool
+	Spinner    string   // with StepLimit: "name@label" of the thread that alone kept running (a busy loop), if any
 	Parked     []string // threads still parked when main finished: "name@label"
 	ParkedMain string
 	Fatal      string // machinery error (not a property violation)
@@ -122,6 +124,8 @@ func Run(ch Chooser, opt Options, main func()) *Result {
 	defer func() { cur = nil }()
 	mainT := s.spawn("main", main)
 	var en []*Thread
+	var lastRun *Thread
+	consec := 0
 	for {
 		en = s.enabled(en[:0])
 		if len(en) == 0 {
@@ -146,14 +150,28 @@ func Run(ch Chooser, opt Options, main func()) *Result {
 			}
 		}
 		s.running = t
+		if opt.Trace && os.Getenv("VERIF_TRACE_STEPS") != "" {
+			s.res.Log = append(s.res.Log, fmt.Sprintf("[%d] resume %s@%s", s.steps, t.Name, t.label))
+			if len(s.res.Log) > 3000 {
+				s.res.Log = s.res.Log[1000:]
+			}
+		}
+		if t == lastRun {
+			consec++
+		} else {
+			lastRun, consec = t, 0
+		}
 		t.wake <- struct{}{}
 		<-s.yield
 		s.steps++
 		if s.fatal != "" || s.res.Panic != "" {
 			break
 		}
-		if s.steps > opt.MaxSteps {
+		if s.steps > opt.MaxSteps || consec > 300000 {
 			s.res.StepLimit = true
+			if consec > 100000 {
+				s.res.Spinner = t.Name + "@" + t.label
+			}
 			break
 		}
 		if mainT.done {
